@@ -35,7 +35,7 @@ ASSUMPTIONS = [
     'EFLR sub-language: every object carries all template attributes (value, count+value or absent); no invariant attributes, no redundant/replacement sets',
 ]
 PROBES = ['channels_object_reused', 'negative_step', 'partial_after_full_same_count', 'full_after_partial_same_count', 'sample_lt_n', 'step_gt1', 'subset_excl_last', 'subset_excl_middle', 'dim2',
-          'interleaved_types', 'after_failed_populate', 'fetch_between', 'subset_unknown_name', 'empty_iflr', 'multi_lf', 'frame_number_gap', 'record_spans_vrs', 'first_channel_is_array', 'first_channel_gt_260_bytes', 'two_indexes_interleaved', 'selector_object_reused', 'selector_reused_other_length', 'file_object_with_foreign_fileno']
+          'interleaved_types', 'after_failed_populate', 'fetch_between', 'subset_unknown_name', 'empty_iflr', 'multi_lf', 'frame_number_gap', 'record_spans_vrs', 'first_channel_is_array', 'first_channel_gt_260_bytes', 'two_indexes_interleaved', 'selector_object_reused', 'selector_reused_other_length', 'file_object_with_foreign_fileno', 'file_object_not_at_start']
 
 LogicalFile = Slice = ExceptionTotalDepth = None
 
@@ -94,6 +94,8 @@ def generate(seed, tier):
     model = DL.gen_model(rng, max_frames=rng.pick([6, 20, 60]), waves=rng.chance(0.3))
     # 'reuse_channels': the caller keeps ONE set object per frame array and edits it in place between calls
     sc = {'world': 'dlis_logical', 'model': model, 'ops': gen_ops(rng, model), 'reuse_channels': rng.chance(0.35)}
+    if rng.chance(0.12):
+        sc['start_offset'] = rng.pick(['end', 'end', 1, 20, 80, 84, 200])
     if rng.chance(0.1):
         sc['foreign_fileno'] = True      # a file object whose fileno() is not the stream it delivers (gzip.open() and the like)
     if rng.chance(0.35):
@@ -155,6 +157,10 @@ def execute(scenario):
     assert len(recs_ref) == len(layout['records']), 'producer / reference reader disagree'
     clock = EventClock()
     f = SimFile(by, clock, foreign_fileno=bool(scenario.get('foreign_fileno')))
+    if scenario.get('start_offset') is not None:
+        # the caller has used the file object before: it is not at the start (just written, or its first bytes inspected)
+        f.seek(len(by) if scenario['start_offset'] == 'end' else min(scenario['start_offset'], len(by)))
+        res.probe('file_object_not_at_start')
     if scenario.get('foreign_fileno'):
         res.probe('file_object_with_foreign_fileno')
     if len(model['lfs']) > 1:
